@@ -9,6 +9,12 @@ res = ''
 if os.path.exists(log):
     res = [l for l in open(log).read().splitlines() if l.startswith('RESULT')][-1:]
     res = res[0] if res else ''
+try:
+    table = json.load(open('/verif/seeded/results.json'))
+    if name in table:
+        caught = table[name]
+except Exception:
+    pass
 meta = {
     "name": name,
     "property": prop,
